@@ -46,6 +46,18 @@ def opsCore (op : String) (a : List String) : Option String :=
       ++ " " ++ b (H3.Gen.Bits.cellToParent_defined h rb o) ++ b (H3.Gen.Bits.cellToCenterChild_defined h rb o)
       ++ b (H3.Gen.Bits.cellToChildrenSize_defined h rb o) ++ b (H3.Gen.Bits.isPentagon_defined h)
       ++ b (H3.Gen.Bits.h3RotatePent60ccw_defined h) ++ b (H3.Gen.Bits.h3RotatePent60cw_defined h))
+  | "genfn3", [h, o, u] => do
+    -- translations that pass `&local` to a callee / have an uninitialised local (`u` is its indeterminate value)
+    let h ← parseH h
+    let o ← parseH o
+    let u ← parseH u
+    let b := fun (x : Bool) => if x then "1" else "0"
+    let o32 := BitVec.setWidth 32 o
+    pure ("ok " ++ toString (H3.Gen.Bits.isValidDirectedEdge h u).toNat
+      ++ " " ++ toString (H3.Gen.Bits.getDirectedEdgeOrigin h o).toNat ++ " " ++ showH (H3.Gen.Bits.getDirectedEdgeOrigin_out_out h o)
+      ++ " " ++ toString (H3.Gen.Bits.maxFaceCount h o32).toNat ++ " " ++ toString (H3.Gen.Bits.maxFaceCount_out_out h o32).toNat
+      ++ " " ++ b (H3.Gen.Bits.isValidDirectedEdge_defined h u) ++ b (H3.Gen.Bits.getDirectedEdgeOrigin_defined h o)
+      ++ b (H3.Gen.Bits.maxFaceCount_defined h o32))
   | "mac", [h, r, d, v] => do
     let h ← parseH h
     let r ← r.toNat?
